@@ -2,7 +2,7 @@
    and round trips of the hand-modelled object layers (Model/C14.v). *)
 From Coq Require Import List Arith NArith Lia Bool ZifyBool ZifyNat ZifyN.
 From GQ Require Import Lib.Key Lib.C14_Varint Lib.C14_BigEndian Lib.C14_ProtoWire Lib.C14_ProtoWireFacts
-  Lib.C14_RLP Generated.C14Schemas Model.C14.
+  Lib.C14_ProtoWireNF Lib.C14_RLP Generated.C14Schemas Model.C14.
 Import ListNotations.
 Local Open Scope N_scope.
 
@@ -44,6 +44,17 @@ Proof. apply encode_inj. exact sc_ok. Qed.
 Lemma sc_reencode id m' m : wf_msg sc id m' = true -> len (encode m') < u64 ->
   decode sc id (encode m') = Some m -> encode m = encode m'.
 Proof. intros Hw Hl D. rewrite (sc_roundtrip id m' Hw Hl) in D. injection D as ->. reflexivity. Qed.
+
+Lemma sc_decode_wf id b m : wf_bytes b -> decode sc id b = Some m -> wf_msg sc id m = true.
+Proof. apply decode_wf. exact sc_ok. Qed.
+
+Lemma sc_decode_idempotent id b m : wf_bytes b -> decode sc id b = Some m -> len (encode m) < u64 ->
+  decode sc id (encode m) = Some m.
+Proof. apply decode_idempotent. exact sc_ok. Qed.
+
+Lemma sc_reencode_iff id b m : wf_bytes b -> len b < u64 -> decode sc id b = Some m ->
+  (encode m = b <-> exists m', wf_msg sc id m' = true /\ b = encode m').
+Proof. apply decode_reencode_iff. exact sc_ok. Qed.
 
 (* ---------------- object layers ---------------- *)
 
@@ -319,3 +330,122 @@ Proof.
   - unfold pad_to. intros E. apply (f_equal (@length fval)) in E.
     rewrite map_length, app_length, map_length, repeat_length in E. cbn [length] in E. unfold max_width in *. lia.
 Qed.
+
+(* ---------------- rawdb keys and records ---------------- *)
+
+Lemma set_bytes_pad n b : (length b <= n)%nat -> set_bytes n b = repeat 0 (n - length b) ++ b.
+Proof. intros H. unfold set_bytes. apply Nat.leb_le in H. rewrite H. reflexivity. Qed.
+
+Lemma set_bytes_length n b : length (set_bytes n b) = n.
+Proof.
+  unfold set_bytes. destruct (Nat.leb (length b) n) eqn:E.
+  - apply Nat.leb_le in E. rewrite app_length, repeat_length. lia.
+  - apply Nat.leb_gt in E. rewrite skipn_length. lia.
+Qed.
+
+Lemma be_dec_zeros k b : be_dec (repeat 0 k ++ b) = be_dec b.
+Proof.
+  unfold be_dec. rewrite fold_left_app. f_equal.
+  induction k as [|k IH]; [reflexivity|]. cbn [repeat fold_left]. exact IH.
+Qed.
+
+Lemma be_fixed_dec n v : v < 256 ^ N.of_nat n -> be_dec (be_fixed n v) = v.
+Proof.
+  intros H. unfold be_fixed. rewrite set_bytes_pad by (apply be_enc_length; exact H).
+  rewrite be_dec_zeros. apply be_dec_enc.
+Qed.
+
+Lemma be_fixed_length n v : length (be_fixed n v) = n.
+Proof. apply set_bytes_length. Qed.
+
+Lemma firstn_exact {A} n (a b : list A) : length a = n -> firstn n (a ++ b) = a.
+Proof. intros <-. rewrite firstn_app, Nat.sub_diag, firstn_all. cbn. apply app_nil_r. Qed.
+
+Lemma skipn_exact {A} n (a b : list A) : length a = n -> skipn n (a ++ b) = b.
+Proof. intros <-. rewrite skipn_app, Nat.sub_diag, skipn_all. reflexivity. Qed.
+
+Lemma utxo_key_length h i : length h = 32%nat -> length (utxo_key h i) = 36%nat.
+Proof. intros H. unfold utxo_key. rewrite !app_length, be_fixed_length, H. reflexivity. Qed.
+
+Lemma utxo_key_roundtrip h i : length h = 32%nat -> i < 65536 ->
+  reverse_utxo_key (utxo_key h i) = DOk (h, i).
+Proof.
+  intros Hh Hi. unfold reverse_utxo_key. rewrite (utxo_key_length h i Hh). cbn [Nat.eqb].
+  unfold utxo_key. rewrite (N.mod_small _ _ Hi).
+  rewrite (skipn_exact 2 utxo_prefix) by reflexivity.
+  rewrite (firstn_exact 32 h) by exact Hh.
+  rewrite app_assoc. rewrite (skipn_exact 34 (utxo_prefix ++ h)) by (rewrite app_length, Hh; reflexivity).
+  rewrite be_fixed_dec by (exact Hi). reflexivity.
+Qed.
+
+Lemma utxo_key_injective h1 i1 h2 i2 :
+  length h1 = 32%nat -> length h2 = 32%nat -> i1 < 65536 -> i2 < 65536 ->
+  utxo_key h1 i1 = utxo_key h2 i2 -> h1 = h2 /\ i1 = i2.
+Proof.
+  intros L1 L2 B1 B2 E. pose proof (utxo_key_roundtrip h1 i1 L1 B1) as R. rewrite E in R.
+  rewrite (utxo_key_roundtrip h2 i2 L2 B2) in R. injection R as -> ->. split; reflexivity.
+Qed.
+
+(* the prefix is not inspected by the reverse function *)
+Lemma reverse_utxo_key_ignores_prefix p1 p2 rest : length p1 = 2%nat -> length p2 = 2%nat ->
+  reverse_utxo_key (p1 ++ rest) = reverse_utxo_key (p2 ++ rest).
+Proof.
+  intros L1 L2. unfold reverse_utxo_key. rewrite !app_length, L1, L2.
+  destruct (Nat.eqb (2 + length rest) 36); [|reflexivity].
+  rewrite (skipn_exact 2 p1), (skipn_exact 2 p2) by assumption.
+  rewrite !skipn_app, L1, L2.
+  rewrite (skipn_all2 (n:=34) p1), (skipn_all2 (n:=34) p2) by lia. reflexivity.
+Qed.
+
+Definition lockup_nf (l : lockup) : Prop :=
+  lk_amount l < 256 ^ 32 /\ lk_height l < 4294967296 /\ lk_elements l < 65536 /\
+  match lk_delegate l with
+  | Some d => length d = 20%nat /\ is_zero_bytes d = false
+  | None => True
+  end.
+
+Lemma lockup_roundtrip l : lockup_nf l ->
+  exists b, lockup_encode l = DOk b /\ lockup_decode b = l /\
+            length b = match lk_delegate l with Some _ => 58%nat | None => 38%nat end.
+Proof.
+  intros (Ha & Hh & He & Hd). unfold lockup_encode.
+  assert (La : (length (be_enc (lk_amount l)) <= 32)%nat) by (apply be_enc_length; exact Ha).
+  assert (E : Nat.ltb 32 (length (be_enc (lk_amount l))) = false) by (apply Nat.ltb_ge; exact La).
+  rewrite E. rewrite (N.mod_small _ _ Hh), (N.mod_small _ _ He).
+  set (A := set_bytes 32 (be_enc (lk_amount l))).
+  set (H := be_fixed 4 (lk_height l)). set (EL := be_fixed 2 (lk_elements l)).
+  assert (LA : length A = 32%nat) by apply set_bytes_length.
+  assert (LH : length H = 4%nat) by apply be_fixed_length.
+  assert (LE : length EL = 2%nat) by apply be_fixed_length.
+  assert (DA : be_dec A = lk_amount l).
+  { unfold A. rewrite set_bytes_pad by exact La. rewrite be_dec_zeros. apply be_dec_enc. }
+  assert (DH : be_dec H = lk_height l) by (apply be_fixed_dec; exact Hh).
+  assert (DE : be_dec EL = lk_elements l) by (apply be_fixed_dec; exact He).
+  eexists. split; [reflexivity|]. unfold lockup_decode.
+  rewrite (firstn_exact 32 A) by exact LA. rewrite (skipn_exact 32 A) by exact LA.
+  rewrite (firstn_exact 4 H) by exact LH.
+  rewrite (app_assoc A H). rewrite (skipn_exact 36 (A ++ H)) by (rewrite app_length, LA, LH; reflexivity).
+  rewrite (firstn_exact 2 EL) by exact LE.
+  rewrite (app_assoc (A ++ H) EL). rewrite (skipn_exact 38 ((A ++ H) ++ EL)) by (rewrite !app_length, LA, LH, LE; reflexivity).
+  rewrite !app_length, LA, LH, LE. rewrite DA, DH, DE.
+  destruct l as [a h e [d|]]; cbn [lk_delegate] in *.
+  - destruct Hd as [Ld Zd]. rewrite Zd, Ld. cbn [Nat.add Nat.eqb]. split; reflexivity.
+  - cbn [length Nat.add Nat.eqb]. split; reflexivity.
+Qed.
+
+(* an amount that does not fit 32 bytes is refused by the writer *)
+Lemma lockup_rejects_wide_amount l : 256 ^ 32 <= lk_amount l -> lockup_encode l = DErr.
+Proof.
+  intros H. unfold lockup_encode.
+  assert (E : Nat.ltb 32 (length (be_enc (lk_amount l))) = true); [|rewrite E; reflexivity].
+  apply Nat.ltb_lt. destruct (le_lt_dec (length (be_enc (lk_amount l))) 32) as [L|L]; [|exact L]. exfalso.
+  pose proof (be_dec_bound (be_enc (lk_amount l)) (be_enc_wf _)) as B. rewrite be_dec_enc in B.
+  assert (256 ^ N.of_nat (length (be_enc (lk_amount l))) <= 256 ^ 32).
+  { apply N.pow_le_mono_r; lia. }
+  lia.
+Qed.
+
+(* the zero delegate is not stored: it reads back as "no delegate" *)
+Lemma lockup_zero_delegate_dropped a h e d : is_zero_bytes d = true ->
+  lockup_encode (mkLockup a h e (Some d)) = lockup_encode (mkLockup a h e None).
+Proof. intros Z. unfold lockup_encode. cbn [lk_amount lk_height lk_elements lk_delegate]. rewrite Z. reflexivity. Qed.
